@@ -17,7 +17,8 @@ MCDims ==
     key |-> {"missing-leaf", "empty", "two-keys-one-missing"},
     union |-> {"empty", "of-cyclic-typedef", "nested-empty"},
     enumx |-> {"duplicate-name", "huge-value", "empty", "negative-then-implicit", "value-not-a-number"},
-    range |-> {"bad-syntax", "descending", "on-string", "outside-parent", "min-only", "above-the-type", "below-the-type", "beyond-the-last-part", "in-a-gap"},
+    range |-> {"bad-syntax", "descending", "on-string", "outside-parent", "min-only", "above-the-type", "below-the-type", "beyond-the-last-part", "in-a-gap",
+                "dec-bad-syntax", "dec-too-precise", "dec-outside-parent", "dec-derived-outside", "length-descending"},
     rpcx |-> {"two-inputs", "input-uses-cycle", "action-in-rpc", "notification-in-rpc"},
     ext |-> {"unknown-prefix", "nested", "argument-only"},
     listx |-> {"max-zero", "min-garbage", "ordered-by-garbage", "unique-garbage"},
